@@ -63,7 +63,12 @@ RULE = ("histories of 8-18 iterations over topologies of 1-3 interfaces (+ optio
         "queries for the auto-address service on the interface that has the address, and unregistration.  "
         "The IpAdd / IpDel events of an iteration are compared as a set plus, for an address with "
         "several events, their order.  Every generated history satisfies the hypotheses of "
-        "C18_checker_accepts_every_run (hist_wf_py: unique pairs per table, one interface per IPv4 address)")
+        "C18_checker_accepts_every_run (hist_wf_py: unique pairs per table, one interface per IPv4 address).  "
+        "Model-free family nonascii (80 histories; the model folds ASCII only): an instance whose SRV target has "
+        "non-ASCII capitals (controls: lower-case non-ASCII, ASCII mixed case, plain) has PTR/SRV/TXT learned on eth1 "
+        "and address records on eth0 and eth1 (0-2 families each, the host name on eth0 sometimes in another ASCII "
+        "case); eth0 disappears (IP check) or is disabled; the projection demands, after the check, a ServiceResolved "
+        "with exactly the addresses learned on eth1 (ServiceRemoved if none) and the same from a fresh browse")
 TRUSTED = [
     "Coq 8.16.1 kernel (coqc); vm_compute only in the non-vacuity Examples",
     "axioms: none (Print Assumptions: Closed under the global context for every theorem)",
@@ -516,6 +521,110 @@ def gen_held(rng, hid):
     return {"id": hid, "t0": T0, "daemons": [{"seed": 1, "ifaces": pool}], "link": "none", "steps": steps}
 
 
+# --------------------------------------------------------------------------- model-free family: non-ASCII host names
+# The daemon model folds ASCII only, while the cache keys host names by their Unicode lower-cased form.  This family
+# is judged without the model: a browsed instance whose SRV target has non-ASCII capital letters (and controls:
+# lower-case non-ASCII, ASCII mixed case, plain) has its PTR / SRV / TXT learned on eth1 and address records on eth0
+# and eth1; then eth0 disappears (IP check) or is disabled.  "Instances that lost other records are resolved again
+# with what is left": after the IP check that drops eth0 the browser must be told the instance again with exactly
+# the addresses learned on eth1 (ServiceRemoved if none is left); a fresh browse afterwards (and after a disable)
+# must report exactly these addresses.  The expectation is computed in the projection; the model line is "NA ok".
+
+NA18_HOST = ["ÉCOLE-Imprimante.local.", "BÜRO-Drucker.local.", "ПРИНТЕР-7.local.", "Ñandú-BOX.local.", "İstanbul-pr.local.",
+             "école-imprimante.local.", "ECOLE-Imprimante.local.", "plainhost.local."]
+
+
+def is_na18(line):
+    return line.startswith('{"id":"na18-')
+
+
+def na18_dgram(e, ty, inst, host, hostnum, full, fams):
+    """announcement heard on OS entry e: complete (PTR, SRV, TXT) or only the address records of the host"""
+    v4 = ":" not in e["addr"]
+    p = dnsgen.Packet()
+    if full:
+        fn = inst + "." + ty
+        p.rr(1, ty, 12, 1, 4500, dnsgen.rd_ptr(fn))
+        p.rr(1, fn, 33, 0x8001, 4500, dnsgen.rd_srv(0, 0, 7000, host))
+        p.rr(1, fn, 16, 0x8001, 4500, dnsgen.rd_bytes(b"\x03a=b"))
+    for f in fams:
+        a = ipaddress.ip_address(host_addr({"addr": "0.0.0.0" if f == 4 else "::", "index": e["index"]}, hostnum))
+        p.rr(1, host, 1 if f == 4 else 28, 0x8001, 4500, dnsgen.rd_bytes(a.packed))
+    peer = host_addr(e, hostnum)
+    return {"if": e["index"], "v4": v4, "src": ("%s:5353" % peer) if v4 else ("[%s]:5353" % peer),
+            "hex": p.finish(flags=0x8400).hex()}
+
+
+def gen_na18(rng, hid):
+    e0 = {"name": "eth0", "index": 2, "addr": "192.168.1.10", "mask": "255.255.255.0"}
+    e1 = {"name": "eth1", "index": 3, "addr": "10.2.0.10", "mask": "255.255.0.0"}
+    pool = [e0, e1] if rng.random() < 0.6 else [e1, e0]
+    ty = "_peer._udp.local."
+    host = rng.choice(NA18_HOST)
+    inst = rng.choice(["Salle-12", "Peer0", "Büro"])
+    fams1 = rng.choice([[4], [4], [4, 6], []])             # what eth1 contributes ([] = nothing is left afterwards)
+    fams0 = rng.choice([[4], [6], [4, 6]])
+    how = rng.choice(["gone", "gone", "gone", "disabled"])
+    t = T0
+    steps = [{"t": t, "d": 0, "calls": [{"op": "monitor", "ch": "m"}, {"op": "set_ip_check_interval", "secs": 1},
+                                         {"op": "browse", "ty": ty, "ch": "b0"}]}]
+
+    def step(dt, **kw):
+        nonlocal t
+        t += dt
+        st = {"t": t, "d": 0}
+        st.update(kw)
+        steps.append(st)
+
+    step(100, dgrams=[na18_dgram(e1, ty, inst, host, 0, True, fams1)])
+    # on eth0 the same announcement (PTR / SRV / TXT keep their first attribution) or only the addresses,
+    # sometimes with the host name in another ASCII case
+    host0 = host if rng.random() < 0.7 else host.swapcase() if host.isascii() else host.replace("local", "LOCAL")
+    step(100, dgrams=[na18_dgram(e0, ty, inst, host0, 0, rng.random() < 0.5, fams0)])
+    step(4900)                                               # first IP check (5 s after the start)
+    if how == "gone":
+        step(200, ifaces=[e1])
+        step(1100)                                           # the IP check that drops eth0: re-resolution expected here
+    else:
+        step(200, calls=[{"op": "disable_interface", "kinds": [rng.choice([{"k": "Name", "v": "eth0"}, {"k": "IndexV4", "v": 2}])]}])
+    step(200, calls=[{"op": "browse", "ty": ty, "ch": "b1"}])
+    return {"id": hid, "t0": T0, "daemons": [{"seed": 1, "ifaces": pool}], "link": "none", "steps": steps}
+
+
+def project_na18(line, raw):
+    h, steps, recs = _records(line, raw)
+    if len(recs) != len(steps):
+        return "NA harness-error"
+    g1 = dnsgen.parse_packet(bytes.fromhex(steps[1]["dgrams"][0]["hex"]))
+    left = set()
+    for rr in g1["an"]:
+        if rr["type"] in (1, 28):
+            left.add("%s@3" % ipaddress.ip_address(rr["rdata"]))
+    inst = dnsgen.dotted(g1["an"][0]["target"]).decode()
+    bad = []
+
+    def events(rec, ch):
+        return [e for e in (rec.get("events") or {}).get(ch, []) if e.get("name") == inst]
+
+    gone = any("ifaces" in st for st in steps[1:])
+    if gone:
+        k = [i for i, st in enumerate(steps) if "ifaces" in st][0] + 1          # the iteration of the IP check
+        evs = [e for e in events(recs[k], "b0") if e.get("e") in ("ServiceResolved", "ServiceRemoved")]
+        if left:
+            if not evs or evs[-1].get("e") != "ServiceResolved" or set(evs[-1]["addrs"]) != left:
+                bad.append("after-removal:want-resolved=%s:got=%s" % (sorted(left), [(e.get("e"), e.get("addrs")) for e in evs]))
+        else:
+            if not evs or evs[-1].get("e") != "ServiceRemoved":
+                bad.append("after-removal:want-removed:got=%s" % [(e.get("e"), e.get("addrs")) for e in evs])
+    evs = [e for e in events(recs[-1], "b1") if e.get("e") == "ServiceResolved"]
+    if left:
+        if len(evs) != 1 or set(evs[0]["addrs"]) != left:
+            bad.append("fresh-browse:want=%s:got=%s" % (sorted(left), [e.get("addrs") for e in evs]))
+    elif evs:
+        bad.append("fresh-browse:want-none:got=%s" % [e.get("addrs") for e in evs])
+    return "NA ok" if not bad else "NA bad " + hx(" ".join(bad))
+
+
 def hist_wf_py(h):
     """the hypotheses of C18_checker_accepts_every_run on a history (Coq: uniq_keysb / wf_stepsb / hist_wf): every OS
     table reports an (interface, address/mask) pair once; no IPv4 address is reported on two interfaces anywhere in
@@ -545,7 +654,8 @@ def generate(rng, tier):
     nx = 160 if tier == "quick" else 3000
     return [Case(jdump(wf_only(gen_history, rng, "c18-%d" % i)), "history") for i in range(n)] + \
            [Case(jdump(wf_only(gen_xfam, rng, "c18x-%d" % i)), "xfam") for i in range(nx)] + \
-           [Case(jdump(wf_only(gen_held, rng, "c18h-%d" % i)), "held") for i in range(nx)]
+           [Case(jdump(wf_only(gen_held, rng, "c18h-%d" % i)), "held") for i in range(nx)] + \
+           [Case(jdump(gen_na18(rng, "na18-%d" % i)), "nonascii") for i in range(nx // 2)]
 
 
 # --------------------------------------------------------------------------- observation / model input
@@ -613,6 +723,8 @@ def _records(line, raw):
 
 
 def project(line, raw):
+    if is_na18(line):
+        return project_na18(line, raw)
     h, steps, recs = _records(line, raw)
     outs = []
     for st, rec in zip(steps, recs):
@@ -659,6 +771,8 @@ def project(line, raw):
 
 
 def model_input(line, raw):
+    if is_na18(line):
+        return "na"
     h, steps, recs = _records(line, raw)
     toks = ["c18", str(h.get("t0", T0)), os_tok(h["daemons"][0]["ifaces"])]
     for st, rec in zip(steps, recs):
@@ -674,6 +788,8 @@ def model_input(line, raw):
 
 
 def nontrivial(line, result):
+    if is_na18(line):
+        return True
     return "dest=" in result or "add." in result or "del." in result or "found/" in result
 
 
@@ -696,6 +812,8 @@ def known_class(line, impl, mon):
 
 
 def shrink(line, still_bad):
+    if is_na18(line):
+        return line                                          # the expectation is positional: not shrunk
     return vlib.shrink_history(line, still_bad)
 
 
